@@ -6,7 +6,7 @@
 //! a small key (clause, sign, reference length) so that a broken tree with billions of failing
 //! values still finishes; the witness of a bucket is rebuilt from its first value on the slow path.
 
-use crate::exec::{panic_text, ready};
+use crate::exec::{Run, drive, panic_text, ready};
 use passage_packets::{AsyncReadPacket, AsyncWritePacket};
 use serde_json::{Value, json};
 use std::collections::BTreeMap;
@@ -92,8 +92,15 @@ pub struct Stats {
     pub fails: BTreeMap<FailKey, (u64, i64)>,
     pub pending: u64,
     pub panic_text: Option<String>,
+    /// values not evaluated because their class (kind, sign, reference length) had already made the
+    /// code under test panic `PANIC_LIMIT` times in this sweep (a violation is on record by then)
+    pub skipped: u64,
+    panics_by_class: BTreeMap<(Kind, bool, u8), u32>,
     current: i64,
 }
+
+/// Unwinding costs microseconds; a tree that panics for billions of values must still finish.
+const PANIC_LIMIT: u32 = 64;
 
 impl Stats {
     pub fn merge(&mut self, o: Stats) {
@@ -102,6 +109,7 @@ impl Stats {
         self.int_classes |= o.int_classes;
         self.long_classes |= o.long_classes;
         self.pending += o.pending;
+        self.skipped += o.skipped;
         if self.panic_text.is_none() {
             self.panic_text = o.panic_text;
         }
@@ -109,6 +117,25 @@ impl Stats {
             let e = self.fails.entry(k).or_insert((0, first));
             e.0 += n;
         }
+    }
+
+    #[inline]
+    fn skip(&mut self, kind: Kind, v: i64, reflen: usize) -> bool {
+        if self.panics_by_class.is_empty() {
+            return false;
+        }
+        if self.panics_by_class.get(&(kind, v < 0, reflen as u8)).is_some_and(|n| *n >= PANIC_LIMIT) {
+            self.skipped += 1;
+            return true;
+        }
+        false
+    }
+
+    #[cold]
+    fn panicked(&mut self, kind: Kind, v: i64, reflen: usize, text: String) {
+        *self.panics_by_class.entry((kind, v < 0, reflen as u8)).or_insert(0) += 1;
+        self.fail(kind, Clause::Panic, v, reflen);
+        self.panic_text.get_or_insert(text);
     }
 
     #[cold]
@@ -132,11 +159,14 @@ impl Bufs {
 
 #[inline]
 fn check_int(v: i32, b: &mut Bufs, st: &mut Stats) {
-    st.ints += 1;
-    st.int_classes |= 1u64 << (32 - (v as u32).leading_zeros());
     b.r.0.clear();
     b.r.varint(v);
     let reflen = b.r.0.len();
+    if st.skip(Kind::Int, v as i64, reflen) {
+        return;
+    }
+    st.ints += 1;
+    st.int_classes |= 1u64 << (32 - (v as u32).leading_zeros());
     b.w.clear();
     match ready(b.w.write_varint(v)) {
         Some(Ok(())) => {}
@@ -168,11 +198,14 @@ fn check_int(v: i32, b: &mut Bufs, st: &mut Stats) {
 
 #[inline]
 fn check_long(v: i64, b: &mut Bufs, st: &mut Stats) {
-    st.longs += 1;
-    st.long_classes |= 1u128 << (64 - (v as u64).leading_zeros());
     b.r.0.clear();
     b.r.varlong(v);
     let reflen = b.r.0.len();
+    if st.skip(Kind::Long, v, reflen) {
+        return;
+    }
+    st.longs += 1;
+    st.long_classes |= 1u128 << (64 - (v as u64).leading_zeros());
     b.w.clear();
     match ready(b.w.write_varlong(v)) {
         Some(Ok(())) => {}
@@ -230,8 +263,7 @@ pub fn sweep_ints(values: impl Iterator<Item = i32>, st: &mut Stats) {
             Ok(()) => break,
             Err(p) => {
                 let v = st.current;
-                st.fail(Kind::Int, Clause::Panic, v, reflen_int(v as i32));
-                st.panic_text.get_or_insert(panic_text(p));
+                st.panicked(Kind::Int, v, reflen_int(v as i32), panic_text(p));
             }
         }
     }
@@ -251,8 +283,7 @@ pub fn sweep_longs(values: impl Iterator<Item = i64>, st: &mut Stats) {
             Ok(()) => break,
             Err(p) => {
                 let v = st.current;
-                st.fail(Kind::Long, Clause::Panic, v, reflen_long(v));
-                st.panic_text.get_or_insert(panic_text(p));
+                st.panicked(Kind::Long, v, reflen_long(v), panic_text(p));
             }
         }
     }
@@ -261,61 +292,56 @@ pub fn sweep_longs(values: impl Iterator<Item = i64>, st: &mut Stats) {
 // ---------------------------------------------------------------------------------------------
 // slow path: a written-out trace of one value (witnesses, samples, replay)
 
-fn show<T: std::fmt::Debug, E: std::fmt::Display>(r: Option<Result<T, E>>) -> String {
+fn show<T: std::fmt::Debug, E: std::fmt::Display>(r: Run<Result<T, E>>) -> String {
     match r {
-        Some(Ok(v)) => format!("Ok({v:?})"),
-        Some(Err(e)) => format!("Err({e})"),
-        None => "Pending".to_string(),
+        Run::Done(Ok(v)) => format!("Ok({v:?})"),
+        Run::Done(Err(e)) => format!("Err({e})"),
+        Run::Pending => "Pending".to_string(),
+        Run::Panic(p) => format!("panic: {p}"),
     }
 }
 
 pub fn describe(kind: Kind, v: i64) -> Value {
-    let r = catch_unwind(AssertUnwindSafe(|| {
-        let mut refw = W::new();
-        let mut written: Vec<u8> = Vec::new();
-        let wres = match kind {
-            Kind::Int => {
-                refw.varint(v as i32);
-                ready(written.write_varint(v as i32))
-            }
-            Kind::Long => {
-                refw.varlong(v);
-                ready(written.write_varlong(v))
-            }
+    let mut refw = W::new();
+    let mut written: Vec<u8> = Vec::new();
+    let wres = match kind {
+        Kind::Int => {
+            refw.varint(v as i32);
+            show(drive(written.write_varint(v as i32)).map_unit())
+        }
+        Kind::Long => {
+            refw.varlong(v);
+            show(drive(written.write_varlong(v)).map_unit())
+        }
+    };
+    let read = |bytes: &[u8]| -> (String, usize) {
+        let mut s: &[u8] = bytes;
+        let shown = match kind {
+            Kind::Int => show(drive(AsyncReadPacket::read_varint(&mut s))),
+            Kind::Long => show(drive(AsyncReadPacket::read_varlong(&mut s))),
         };
-        let read = |bytes: &[u8]| -> (String, usize) {
-            let mut s: &[u8] = bytes;
-            let shown = match kind {
-                Kind::Int => show(ready(AsyncReadPacket::read_varint(&mut s))),
-                Kind::Long => show(ready(AsyncReadPacket::read_varlong(&mut s))),
-            };
-            (shown, s.len())
-        };
-        let (back, left) = read(&written);
-        let (back_ref, left_ref) = read(&refw.0);
-        // what the independent reader makes of the crate's bytes
-        let mut rr = R::new(&written);
-        let independent = match kind {
-            Kind::Int => format!("{:?}", rr.varint()),
-            Kind::Long => format!("{:?}", rr.varlong()),
-        };
-        json!({
-            "value": v,
-            "reference_bytes": hex(&refw.0),
-            "crate_write_result": show(wres.map(|r| r.map(|_| "written"))),
-            "crate_written_bytes": hex(&written),
-            "crate_read_of_written_bytes": back,
-            "bytes_left_over_after_read": left,
-            "crate_read_of_reference_bytes": back_ref,
-            "bytes_left_over_after_read_of_reference": left_ref,
-            "independent_read_of_written_bytes": independent,
-            "max_encoded_length": kind.max_len(),
-        })
-    }));
-    match r {
-        Ok(v) => v,
-        Err(p) => json!({"value": v, "panic": panic_text(p)}),
-    }
+        (shown, s.len())
+    };
+    let (back, left) = read(&written);
+    let (back_ref, left_ref) = read(&refw.0);
+    // what the independent reader makes of the crate's bytes
+    let mut rr = R::new(&written);
+    let independent = match kind {
+        Kind::Int => format!("{:?}", rr.varint()),
+        Kind::Long => format!("{:?}", rr.varlong()),
+    };
+    json!({
+        "value": v,
+        "reference_bytes": hex(&refw.0),
+        "crate_write_result": wres,
+        "crate_written_bytes": hex(&written),
+        "crate_read_of_written_bytes": back,
+        "bytes_left_over_after_read": left,
+        "crate_read_of_reference_bytes": back_ref,
+        "bytes_left_over_after_read_of_reference": left_ref,
+        "independent_read_of_written_bytes": independent,
+        "max_encoded_length": kind.max_len(),
+    })
 }
 
 fn txt(v: &Value) -> &str {
@@ -340,6 +366,9 @@ pub fn emit(rep: &mut Report, st: &Stats) {
         if st.long_classes >> i & 1 == 1 {
             rep.add_distinct(&format!("varlong/bit-length-{i}"));
         }
+    }
+    if st.skipped > 0 {
+        rep.count("VarInt/VarLong values skipped after their class had made the code under test panic 64 times in one work item", st.skipped);
     }
     if st.pending > 0 {
         rep.inconclusive_fatal(&format!(
